@@ -147,6 +147,17 @@ def ind_bucket(host, ip_addr):
     return (6, int(ip) >> 72)
 
 
+def ind_bucket_str(host, ip_addr):
+    """The bucket string of the peer's current address, computed with the stdlib only."""
+    from ipaddress import ip_network
+    if host.endswith('.onion'):
+        return 'onion'
+    if not ip_addr:
+        return ''
+    ip = ip_address(ip_addr)
+    return str(ip_network(f'{ip}/{16 if ip.version == 4 else 56}', strict=False))
+
+
 def net_entry(host):
     ip = ip_or_none(host)
     if ip is None:
@@ -226,6 +237,19 @@ class SubRun:
         self.idx = {id(o): i for i, o in enumerate(self.objs)}
         pm.peers = peers_env.OrderedPeerSet(o for o, s in zip(self.objs, specs) if s['in_peers'])
         pm.myselves = [o for o, s in zip(self.objs, specs) if s['myself']]
+        if case.get('reverified'):
+            # the peers were first seen (and listed once) at another address, then re-verified at the
+            # address of the case (`_verify_peer` overwrites `ip_addr`): nothing derived from the old
+            # address may survive in the objects
+            for n, (o, s) in enumerate(zip(self.objs, specs)):
+                if s['ip']:
+                    o.ip_addr = f'{(37 + n) % 200 + 11}.{(n * 7) % 250 + 1}.9.9'
+            try:
+                peers_env.call_on_peers_subscribe(pm, case['is_tor'], case['now'], chooser_for('id'))
+            except Exception:
+                pass
+            for o, s in zip(self.objs, specs):
+                o.ip_addr = s['ip']
         self.order = [self.idx[id(o)] for o in pm.peers]          # set iteration order
         self.myselves = [self.idx[id(o)] for o in pm.myselves]
         self.error = None
@@ -245,8 +269,9 @@ class SubRun:
 
     def view(self, i):
         o = self.objs[i]
+        # the model is given the bucket of the peer's *current* address (independent computation)
         return (f'{i},{o.last_good},{int(o.bad)},{int(bool(o.is_tor))},{int(bool(o.is_public))},'
-                f'{enc_str(o.bucket_for_external_interface())},{enc_str(o.host)},{enc_opt(o.ip_addr)}')
+                f'{enc_str(ind_bucket_str(o.host, o.ip_addr))},{enc_str(o.host)},{enc_opt(o.ip_addr)}')
 
     def line(self):
         c = self.case
@@ -410,7 +435,8 @@ def gen_population(rng, shape):
                           'lg': gen_last_good(rng, now, stale, 0.7), 'bad': rng.random() < 0.1,
                           'in_peers': False, 'myself': True})
     mode = rng.choice(['id', 'rev', 'rot'] + [f'rnd:{rng.randrange(10 ** 9)}'] * 5)
-    return {'kind': 'sub', 'now': now, 'is_tor': rng.random() < 0.5, 'shuffle': mode, 'specs': specs}
+    return {'kind': 'sub', 'now': now, 'is_tor': rng.random() < 0.5, 'shuffle': mode, 'specs': specs,
+            'reverified': rng.random() < 0.3}
 
 
 def sub_stats(res, run):
@@ -901,7 +927,8 @@ def pins(res):
             res.disagreements.append({'suite': SUITE, 'where': 'pin is_valid_hostname', 'case': {'host': h},
                                       'code': repr(got), 'model': repr(exp)})
     for host, ip, exp in BUCKET_TABLE:
-        got = peers_env.make_peer(host, ip).bucket_for_external_interface()
+        got = peers_env.make_peer(host, ip).bucket_for_external_interface
+        got = got() if callable(got) else got      # method today; tolerate a property
         res.evaluations += 1
         if got != exp:
             res.disagreements.append({'suite': SUITE, 'where': 'pin bucket_for_external_interface',
